@@ -54,7 +54,13 @@ func world(run *vh.Run, label string, wi, nBlocks int) {
 	if wi%2 == 1 {
 		maxGas = 2_500_000
 	}
-	w := vh.NewWorld(r, vh.WorldOpts{Chain: vh.Config{Seed: r.U64(), NumVals: 1, MaxGas: maxGas}, NumEOA: 6, Prog: vh.ProgOpts{MaxLen: 6, Depth: 1}})
+	// a key holder X and a funded 32-byte account whose last 20 bytes are X's address (no key controls it): transactions
+	// signed by X that declare the long account as sender must be refused like any other From != signer
+	aliasSigner = vh.NewAcct(r)
+	aliasRaw = append(r.Bytes(12), aliasSigner.Addr.Bytes()...)
+	w := vh.NewWorld(r, vh.WorldOpts{Chain: vh.Config{Seed: r.U64(), NumVals: 1, MaxGas: maxGas,
+		Accounts: []vh.GenAccount{{Addr: aliasSigner.Addr, Coins: vh.NativeCoins(100)}, {RawAddr: aliasRaw, Coins: vh.NativeCoins(100)}}},
+		NumEOA: 6, Prog: vh.ProgOpts{MaxLen: 6, Depth: 1}})
 	defer w.C.Cleanup()
 	c := w.C
 	w.DeployGenerated(6, nil)
@@ -267,8 +273,24 @@ func validEth(w *vh.World, r *vh.RNG, s *vh.Acct) *vh.TxPlan {
 
 var secpN, _ = new(big.Int).SetString("fffffffffffffffffffffffffffffffebaaedce6af48a03bbfd25e8cd0364141", 16)
 
+// set per world (worlds run one after another)
+var (
+	aliasSigner *vh.Acct
+	aliasRaw    []byte
+)
+
 func hostile(w *vh.World, r *vh.RNG, s *vh.Acct) *plan {
 	c := w.C
+	if aliasSigner != nil && r.Chance(1, 12) {
+		// declared sender = the 32-byte account ending in the signer's address; nonce = that account's sequence (0)
+		to := vh.Pick(r, w.Pool)
+		tx := vh.SignEth(aliasSigner, &ethtypes.LegacyTx{Nonce: 0, To: &to, Value: big.NewInt(7), Gas: 30000, GasPrice: new(big.Int).Mul(c.BaseFee(), big.NewInt(3))})
+		bz, err := c.WrapEthFromRaw(tx, aliasRaw)
+		if err != nil {
+			return nil
+		}
+		return &plan{TxPlan: &vh.TxPlan{Kind: "eth-hostile", Class: "from-long-address-ending-in-signer", Sender: aliasSigner, Tx: tx, Bytes: bz}, hostile: "from-long-address-ending-in-signer"}
+	}
 	nonce := w.NextNonce(s.Addr)
 	to := vh.Pick(r, w.Pool)
 	price := new(big.Int).Mul(c.BaseFee(), big.NewInt(3))
